@@ -47,6 +47,9 @@ def shards(tier, seed):
             L = len(d)
             for p in dict.fromkeys([0, 3, 8, L - 1, L]):
                 out.append(dict(cls=cls, bits=d, pos=p, how='set'))
+        for d in ['10110', '10110010', '0010110100011']:
+            for p in (0, 2, len(d)):
+                out.append(dict(cls=cls, bits=d, pos=p, how='file'))
         out.append(dict(cls=cls, bits='0110', pos=-1, how='kw'))
         out.append(dict(cls=cls, bits='0110', pos=-4, how='kw'))
     return out
@@ -67,20 +70,46 @@ def canon(v, world=None):
     return v
 
 
+BA_SRC = '''def WITH_BA(thunk):
+    bitstring.options.bytealigned = True
+    try:
+        return thunk()
+    finally:
+        bitstring.options.bytealigned = False'''
+
+
 class System:
+    ctx = None
+
     def __init__(self, bs):
         self.bs = bs
 
     def build(self, root):
         cls = getattr(self.bs, root['cls'])
-        if root['how'] == 'kw':
+        if root['how'] == 'file':
+            # a window onto a longer file (the file goes on with 1s)
+            data = root['bits'] + '1' * (32 - len(root['bits']))
+            s = cls(filename=self.ctx.file_for(int(data, 2).to_bytes(4, 'big')), length=len(root['bits']))
+            s.pos = root['pos']
+        elif root['how'] == 'kw':
             s = cls(bin=root['bits'], pos=root['pos'])
         else:
             s = cls(bin=root['bits'])
             s.pos = root['pos']
-        return {'bitstring': self.bs, 's': s, 'Dtype': self.bs.Dtype}
+        return {'bitstring': self.bs, 's': s, 'Dtype': self.bs.Dtype, 'WITH_BA': self.with_ba}
+
+    def with_ba(self, thunk):
+        self.bs.options.bytealigned = True
+        try:
+            return thunk()
+        finally:
+            self.bs.options.bytealigned = False
 
     def root_src(self, root):
+        if root['how'] == 'file':
+            data = root['bits'] + '1' * (32 - len(root['bits']))
+            return ["import tempfile, os", "F = os.path.join(tempfile.mkdtemp(), 'f.bin')", f"open(F, 'wb').write({int(data, 2).to_bytes(4, 'big')!r})",
+                    f"s = bitstring.{root['cls']}(filename=F, length={len(root['bits'])})", f"s.pos = {root['pos']}"]
         if root['how'] == 'kw':
             return [f"s = bitstring.{root['cls']}(bin={root['bits']!r}, pos={root['pos']})"]
         return [f"s = bitstring.{root['cls']}(bin={root['bits']!r})", f"s.pos = {root['pos']}"]
@@ -103,7 +132,7 @@ class System:
         return model_step(st, ev, self.bs)
 
     def snippet(self, root, hist, ev, accept):
-        lines = ["import bitstring", "from bitstring import Dtype", CANON_SRC] + self.root_src(root)
+        lines = ["import bitstring", "from bitstring import Dtype", CANON_SRC] + ([BA_SRC] if any('WITH_BA(' in x.src for x in list(hist) + [ev]) else []) + self.root_src(root)
         for h in hist:
             lines += ["try:", f"    {h.src}", "except Exception:", "    pass"]
         lines += ["try:", f"    r = ('ok', canon({ev.src}))" if _is_expr(ev.src) else f"    {ev.src}; r = ('ok', None)",
@@ -192,6 +221,12 @@ def build_menu(d, p, cls, menu):
                 A(Event('rfind', (pat, a, b, ba), f"s.rfind({psrc}, {a}, {b}, {ba})", dev))
         for ba in ((None, True) if full else (None,)):
             A(Event('readto', (pat, ba), f"s.readto({psrc}, {ba})", pat == '' or ba is not None))
+    # the module-wide default: with options.bytealigned set, a readto without an explicit argument is byte-aligned
+    for pat, psrc in pats[:2]:
+        A(Event('readto', (pat, True, 'option'), f"WITH_BA(lambda: s.readto({psrc}))", True))
+        if full:
+            A(Event('readto', (pat, False, 'option-explicit-false'), f"WITH_BA(lambda: s.readto({psrc}, False))", True))
+            A(Event('find', (pat, None, None, True, 'option'), f"WITH_BA(lambda: s.find({psrc}))", True))
     if full:
         A(Event('readto', (None, None), "s.readto(3)", True))
     # new stream objects start at 0; pos never affects ==/hash or non-stream results
@@ -241,6 +276,10 @@ def build_menu(d, p, cls, menu):
                  ("s.bits = '0b1'", 'bits', '1'), ("s.bool = True", 'bool', True), ("s.ue = 3", 'ue', 3), ("s.float16 = 0.5", 'float16', 0.5), ("s.int = -1", 'int', -1)]
         for src, name, v in (props if full else props[:2]):
             A(Event('propset', (name, v), src, True))
+        # the same through alias names (their setters are installed separately)
+        aliases = [("s.h = 'f'", 'hex', 'f'), ("s.b = '01'", 'bin', '01'), ("s.o = '7'", 'oct', '7'), ("s.u = 1", 'uint', 1), ("s.i = -1", 'int', -1), ("s.h = 'abc'", 'hex', 'abc')]
+        for src, name, v in (aliases if full else aliases[:1]):
+            A(Event('propset', (name, v, 'alias'), src, True))
     return ev
 
 
@@ -351,6 +390,8 @@ def propset_model(d, name, v):
         return M.OK(format(int(v, 16), f'0{4 * len(v)}b'))
     if name == 'bin':
         return M.OK(v)
+    if name == 'oct':
+        return M.OK(format(int(v, 8), f'0{3 * len(v)}b'))
     if name == 'bytes':
         return M.OK(''.join(format(ord(c), '08b') for c in v))
     if name == 'bits':
@@ -409,8 +450,18 @@ class Sys2(System):
 
 
 def run_shard(shard, acc):
+    from .. import routes
+    ctx = routes.Ctx()
+    try:
+        _run_shard(shard, acc, ctx)
+    finally:
+        ctx.close()
+
+
+def _run_shard(shard, acc, ctx):
     bs = core.import_bitstring()
     sysm = Sys2(bs, shard['cls'])
+    sysm.ctx = ctx
     q = acc.tier == 'quick'
     small = len(shard['bits']) <= (4 if q else 5)
     if q:
